@@ -7,6 +7,7 @@ import Dhlldv.Spec.Memo
 import Dhlldv.Spec.Pipeline
 import Dhlldv.Spec.Fracs
 import Dhlldv.Spec.Workbook
+import Dhlldv.Spec.FileName
 import Dhlldv.Gen.Effects
 
 /-! Line-protocol dispatcher over the hand-written Spec models. -/
@@ -41,6 +42,18 @@ def unhex (s : String) : String :=
       go rest (Char.ofNat (d a * 16 + d b) :: acc)
     | _, acc => acc.reverse
   String.ofList (go cs [])
+
+def hexNibble (c : Char) : Nat := if c.isDigit then c.toNat - 48 else c.toNat - 87
+
+def unhexBytes (s : String) : ByteArray :=
+  let rec go : List Char → ByteArray → ByteArray
+    | a :: b :: rest, acc => go rest (acc.push (UInt8.ofNat (hexNibble a * 16 + hexNibble b)))
+    | _, acc => acc
+  go s.toList ByteArray.empty
+
+def hexOfString (s : String) : String :=
+  let digit := fun (n : Nat) => Char.ofNat (if n < 10 then 48 + n else 87 + n)
+  String.ofList (s.toUTF8.toList.flatMap fun b => [digit (b.toNat / 16), digit (b.toNat % 16)])
 
 def extractedReqs : List Spec.Workbook.Req :=
   Effects.excelRequireds.map fun r => { type := r.1, required := r.2.1, scalars := r.2.2.1, tables := r.2.2.2 }
@@ -191,6 +204,12 @@ def dispatch (op : String) (a : Array String) : Option String :=
         | .ok _ => "ok"
         | .error (.invalidExcel _) => "InvalidExcelError"
         | .error (.other c) => "other:" ++ c)
+  | "spec.filename" =>
+    -- spec.filename <hex utf-8 of the requested name | -> : hex utf-8 of the base name store_to_excel writes
+    if a.size != 1 then none else
+    let req := if a[0]! == "-" then "" else String.fromUTF8! (unhexBytes a[0]!)
+    let repl := Effects.filenameReplace.flatMap fun s => s.toList
+    some ("h" ++ hexOfString (Spec.FileName.baseName repl Effects.filenameValid.toList req))
   | _ => none
 
 end Spec
